@@ -784,6 +784,9 @@ theorem step_refines (env : Env) (i : Instr) (pre st : List Val) (hr : Spec.step
   case TRANSFER_TOKENS =>
     exact step_ternop env pre st .TRANSFER_TOKENS (Spec.transferTokensV env) (Impl.execTransferTokens env) (fun _ _ _ _ => rfl) rfl
       (fun a => rfl) (fun a b => rfl) (fun _ => rfl) (execTransferTokens_eq env) hr
+  case CHECK_SIGNATURE =>
+    exact step_ternop env pre st .CHECK_SIGNATURE (Spec.checkSignatureV env) (Impl.execCheckSignature env) (fun _ _ _ _ => rfl) rfl
+      (fun a => rfl) (fun a b => rfl) (fun _ => rfl) (execCheckSignature_eq env) hr
   case PAIRN n => exact step_PAIRN env pre st n hr
   case UNPAIRN n => exact step_UNPAIRN env pre st n hr
   case GETN n => exact step_GETN env pre st n hr
